@@ -42,7 +42,8 @@ func gen(g *kernel.Rng, seed uint64, tier string) *kernel.Plan {
 	}
 	p.Cfg["rseg"] = int64(g.Pick(3, 1, 3, 1, 3))
 	p.Cfg["form"] = int64(g.Intn(3))
-	p.Cfg["bad"] = int64(g.Pick(60, 8, 8, 8, 8))
+	p.Cfg["bad"] = int64(g.Pick(60, 8, 8, 8, 8, 5))
+	p.Cfg["eofdata"] = int64(g.Pick(2, 1))
 	p.Cfg["badAt"] = int64(g.Range(0, 12))
 	p.Cfg["badH"] = int64(g.Range(1, 3))
 	budget := int64(70000)
@@ -192,6 +193,20 @@ func build(p *kernel.Plan, tape *kernel.Tape) *trace {
 		return 2
 	}
 	bad := int(p.C("bad"))
+	if bad == 5 {
+		// chunk stream 2 itself is fresh and starts with a type-2 or type-3
+		// header: only the type-1 librtmp form is an exception
+		h := byte(2 + p.CD("badH", 1)%2)
+		b := ref.Basic(h, 2, 1)
+		if h == 2 {
+			b = append(b, 0, 0, 1)
+		}
+		ck.Out = append(ck.Out, b...)
+		ck.Out = append(ck.Out, kernel.Fill(300, 97)...)
+		t.badFired, t.badKind = true, 5
+		t.bytes, t.expect, t.hdr, t.ext = ck.Out, ck.Done, ck.DoneHdr, ck.DoneExt
+		return t
+	}
 	if bad == 4 {
 		ck.LibrtmpPing([]byte{0, 6, 0, 0, 0x0d, 0x0f})
 		t.badFired = true
@@ -319,7 +334,7 @@ func run(p *kernel.Plan) (res *kernel.Result) {
 		res.Invalid = true
 		return
 	}
-	rejecting := t.badFired && t.badKind >= 1 && t.badKind <= 3
+	rejecting := t.badFired && (t.badKind >= 1 && t.badKind <= 3 || t.badKind == 5)
 	// the reference parser must agree with the reference chunker on conformant traces
 	if !rejecting && t.badKind != 4 {
 		cp := ref.NewChunkParser()
@@ -337,6 +352,7 @@ func run(p *kernel.Plan) (res *kernel.Result) {
 	pipe := simnet.NewPipe("peer>reader", nil, tape)
 	pipe.NoYield = true
 	pipe.RSeg = int(p.C("rseg"))
+	pipe.EOFData = p.C("eofdata") != 0
 	pipe.Write(t.bytes)
 	pipe.CloseWrite()
 	proto := rtmp.NewProtocol(struct {
